@@ -823,12 +823,18 @@ class ExcludeRegionState(object):  # pylint: disable=too-many-instance-attribute
             "G92 E{e}".format(e=self.position.E_AXIS.nativeToLogical())
         )
 
+        def exitCoordinate(axis, lastAxis):
+            """Coordinate to send for an axis: absolute, or the offset from where the tool is."""
+            if (axis.absoluteMode):
+                return axis.nativeToLogical()
+            return (axis.current - lastAxis.current) / axis.unitMultiplier
+
         # Compare native (mm) Z values, since the units may have changed while excluding
         newZ = self.position.Z_AXIS.current
         oldZ = self.lastPosition.Z_AXIS.current
         moveZcmd = "G0 F{f} Z{z}".format(
             f=self.feedRate / self.feedRateUnitMultiplier,
-            z=self.position.Z_AXIS.nativeToLogical()
+            z=exitCoordinate(self.position.Z_AXIS, self.lastPosition.Z_AXIS)
         )
 
         if (newZ > oldZ):
@@ -841,8 +847,8 @@ class ExcludeRegionState(object):  # pylint: disable=too-many-instance-attribute
             # Use G0 ("fast" linear move) as this is a non-extruding move
             "G0 F{f} X{x} Y{y}".format(
                 f=self.feedRate / self.feedRateUnitMultiplier,
-                x=self.position.X_AXIS.nativeToLogical(),
-                y=self.position.Y_AXIS.nativeToLogical()
+                x=exitCoordinate(self.position.X_AXIS, self.lastPosition.X_AXIS),
+                y=exitCoordinate(self.position.Y_AXIS, self.lastPosition.Y_AXIS)
             )
         )
 
